@@ -629,6 +629,27 @@ impl FdlActiveStation {
         self.pending_bytes = pending_bytes;
     }
 
+    /// Lower the known amount of pending bytes when the receive buffer got shorter in this poll.
+    ///
+    /// Undecodable data is dropped from the buffer by the PHY helpers without the station being
+    /// told.  If the old, higher count were kept, the bytes arriving next would not exceed it and
+    /// would go unnoticed as bus activity: the slot timer would expire in the middle of a telegram
+    /// that is still being received.
+    fn follow_shrunken_receive_buffer(
+        &mut self,
+        now: crate::time::Instant,
+        phy: &mut impl ProfibusPhy,
+    ) {
+        if self.connectivity_state == ConnectivityState::Offline || phy.poll_transmission(now) {
+            // Nothing is received while we are offline or transmitting.
+            return;
+        }
+        let pending_bytes = phy.poll_pending_received_bytes(now);
+        if pending_bytes < self.pending_bytes {
+            self.pending_bytes = pending_bytes;
+        }
+    }
+
     /// Mark receival of a telegram.
     fn mark_rx(&mut self, now: crate::time::Instant) {
         self.pending_bytes = 0;
@@ -1486,6 +1507,7 @@ impl FdlActiveStation {
         app: &mut dyn FdlApplication,
     ) {
         let _result = self.poll_inner(now, phy, &mut [app]);
+        self.follow_shrunken_receive_buffer(now, phy);
     }
 
     /// Poll the bus with multiple active applications.
@@ -1510,6 +1532,7 @@ impl FdlActiveStation {
         apps: &mut [&mut dyn FdlApplication],
     ) {
         let _result = self.poll_inner(now, phy, apps);
+        self.follow_shrunken_receive_buffer(now, phy);
     }
 
     fn poll_inner<PHY: ProfibusPhy>(
